@@ -16,6 +16,7 @@ CONSTANTS
   Concurrent = FALSE
   WithRejects = FALSE
   ExportOneIn = 1
+  RecoveryCrashes = FALSE
 INVARIANTS NoViolation CacheCounterExact ChunksAbut DurableIsPrefix Export 
 VIEW View
 ALIAS Alias
